@@ -313,13 +313,15 @@ pub fn storage_api_same_version_id_part(property: &str, cov: &mut Cov) -> Option
         let before = reads(&mut subj);
         for (k, (vid, _)) in chain.iter().enumerate() {
             let b = Uuid::new_v4();
-            let outcome = (|| -> anyhow::Result<()> {
-                let mut t = subj.storage.txn(b)?;
+            let storage = subj.storage.clone();
+            let outcome = std::panic::catch_unwind(std::panic::AssertUnwindSafe(|| -> anyhow::Result<()> {
+                let mut t = storage.txn(b)?;
                 t.new_client(Uuid::nil())?;
                 t.add_version(*vid, Uuid::nil(), format!("segment of B under A's id #{k}").into_bytes())?;
                 t.set_snapshot(taskchampion_sync_server_core::Snapshot { version_id: *vid, timestamp: chrono::Utc::now(), versions_since: 0 }, b"snapshot of B".to_vec())?;
                 t.commit()
-            })();
+            }))
+            .unwrap_or_else(|_| Err(anyhow::anyhow!("the storage call panicked")));
             cov.evaluations += 1;
             cov.hit(format!("storage-api-same-version-id|{}|{}", kind.name(), if outcome.is_ok() { "stored" } else { "refused" }));
             let after = reads(&mut subj);
